@@ -166,10 +166,24 @@ func check(args []string) {
 		res := vc.Discharge(rep.Unit.Obls, scratch, timeout, *workers)
 		// retry ladder for undecided obligations: larger budget before anything is reported
 		var wg sync.WaitGroup
-		sem := make(chan struct{}, 4)
+		sem := make(chan struct{}, 6)
 		nretry := 0
+		// when some obligation of this function is already conclusively refuted the verdict is decided: no retries
+		refuted := false
+		undecided := 0
 		for i := range res {
-			if !res[i].OK && (res[i].V.Status == "timeout" || res[i].V.Status == "unknown") && nretry < 12 {
+			if !res[i].OK && res[i].V.Status == "sat" && res[i].O.Expect == "unsat" {
+				refuted = true
+			}
+			if !res[i].OK && (res[i].V.Status == "timeout" || res[i].V.Status == "unknown") {
+				undecided++
+			}
+		}
+		for i := range res {
+			if refuted || undecided > 6 {
+				break // many undecided obligations at once mean the code changed under the proof, not solver noise
+			}
+			if !res[i].OK && (res[i].V.Status == "timeout" || res[i].V.Status == "unknown") && nretry < 6 {
 				nretry++
 				i := i
 				script := res[i].O.Script(nil)
